@@ -45,6 +45,10 @@ FaultVerdict(ln) ==
      (IF IsOk(ln.resp) /\ ~(ln.resp.status = exp.resp.status /\ SameUpToRetriedGens(db0, exp.s, fin))
       THEN {"C17_SuccessNotExactlyOnce"} \cup {"differs:" \o x : x \in Differs(NoGens(exp.s), NoGens(fin))} ELSE {})
 \cup (IF IsErr(ln.resp) /\ fin # db0 THEN {"C17_ErrorWithEffect"} ELSE {})
+\* C10: a request answered with an error changes no generation - whatever made it fail
+\cup (IF IsErr(ln.resp) /\ (\E p \in Providers(db0) \cap Providers(fin) : fin.rp[p].gen # db0.rp[p].gen
+                           \/ \E c \in (DOMAIN db0.cons) \cap (DOMAIN fin.cons) : fin.cons[c].gen # db0.cons[c].gen)
+      THEN {"C10_ErrorMovedGeneration"} ELSE {})
 \cup (IF IsErr(ln.resp) /\ fin # db0 /\ DropIdle(fin) = DropIdle(db0) THEN {"residue:idle-consumer"} ELSE {})
 \cup (IF IsErr(ln.resp) /\ ~ln.wellformed THEN {"C17_ErrorNotWellFormed"} ELSE {})
 \cup (IF ln.resp.status = 599 THEN {"C17_EscapedException"} ELSE {})
